@@ -63,6 +63,7 @@ package boltz
 //@   nosafety
 //@   modifies *
 //@   ensures[pending-error-does-nothing] old(holderFailed[ctx.ErrHolder]) ==> dbSame()
+//@   ensures[a-null-reference-needs-no-cleanup] !old(holderFailed[ctx.ErrHolder]) && str_len(old(fkNew(index, ctx))) == 0 ==> dbSame() && !holderFailed[ctx.ErrHolder]
 //@   ensures[target-no-longer-lists-the-row] !holderFailed[ctx.ErrHolder] && str_len(old(fkNew(index, ctx))) > 0 ==> !fkListed(fkB(index, ctxTx[ctx.Ctx], old(fkNew(index, ctx))), str(ctx.RowId))
 
 // ---- delete of a referenced entity: restrict or cascade ----
